@@ -82,8 +82,8 @@ def setup(ctx):
     from .. import retain as _rt
 
     _mon.attach(gt.Transitions, 'from_trajectory', label='Transitions.from_trajectory', retain=_rt.transitions)
-    _mon.attach(gt.Transitions, 'states_prev', label='Transitions.states_prev', retain=_rt.auto)
-    _mon.attach(gt.Transitions, 'states_next', label='Transitions.states_next', retain=_rt.auto)
+    _mon.attach(gt.Transitions, 'states_prev', label='Transitions.states_prev', retain=_rt.auto, own_result=True)
+    _mon.attach(gt.Transitions, 'states_next', label='Transitions.states_next', retain=_rt.auto, own_result=True)
 
 
 def teardown(ctx):
